@@ -2,7 +2,7 @@
 """Regenerate /verif/MANIFEST.json from the table below (one entry per claimed property)."""
 import json, subprocess
 
-HOOK_COMMITS = ["4a93766"]
+HOOK_COMMITS = ["4a93766", "4da9cd2", "079b228"]
 
 CLAIMED = {
  "C01": dict(
